@@ -96,7 +96,7 @@ def KLEX(n, mode, cls, tier, cap=600, mem=4, unwind=None, kind=None):
       f"step: element type, exact payload byte range, cursor, mode afterwards, non-decimal value; violations of 488.2 "
       f"syntax rejected with a command error; no panic, progress",
       f"remaining input exactly {n} bytes, {first}", cap_s=cap, mem_gb=mem, unwind=unwind or max(n + 3, 8),
-      also=["C01", "C14"], sample=(mode == 0 and cls == 0 and n == 2))
+      also=["C14"], sample=(mode == 0 and cls == 0 and n == 2))
 
 
 # fully symbolic content, one instance per length
@@ -129,7 +129,7 @@ for L in (0, 1, 2, 3, 4):
       f"calls, each next_token (required) or next_optional_token: the i-th successful call returns the i-th data element "
       f"before the first ';', a required call past it -109, an optional one None, a lexer error as is; only data elements "
       f"are ever handed out (parser_unreachable! is dead)", f"all lexable token scripts of length {L}; all 8 usage scripts",
-      cap_s=900, mem_gb=7, stubset="tok", unwind=max(L + 3, 5), also=["C01"], sample=(L == 1))
+      cap_s=900, mem_gb=7, stubset="tok", unwind=max(L + 3, 5), sample=(L == 1))
 
 # ---------------------------------------------------------------------------- C07
 def F(t):
@@ -140,18 +140,18 @@ for t in INTS:
     H(f"c07_q_kernel_{t}", "C07", f"c07::kernel::<{t}, _>",
       f"{t}::try_from(DecimalNumericProgramData) on the float fallback path: for EVERY non-NaN {F(t)} the literal can "
       f"denote, the result is the nearest integer (either neighbour at a tie) when representable and -222 otherwise",
-      f"all non-NaN {F(t)} bit patterns; one query", cap_s=120, mem_gb=2, stubset="float", also=["C01"],
+      f"all non-NaN {F(t)} bit patterns; one query", cap_s=120, mem_gb=2, stubset="float",
       sample=(t in ("i32", "u8")))
     H(f"c07_q_nondec_{t}", "C07", f"c07::nondecimal::<{t}, _>",
       f"{t}::try_from(NonDecimalNumericProgramData(v)) == exact value if v <= MAX else -222", "all 2^64 values",
-      cap_s=120, mem_gb=2, also=["C01"])
+      cap_s=120, mem_gb=2)
     H(f"c07_q_other_{t}", "C07", f"c07::otherkinds::<{t}, _>",
       f"{t}: suffixed literal -> -138, string/block/expression -> -104", "3 symbolic payload bytes, 4 token kinds",
-      cap_s=120, mem_gb=2, also=["C01", "C08"])
+      cap_s=120, mem_gb=2, also=["C08"])
     for n in (3, 7):
         H(f"c07_q_char{n}_{t}", "C07", f"c07::chardata::<{t}, {n}, _>",
           f"{t} from character data of {n} bytes: MIN/MAX keyword (short/long, any case) -> bound, anything else -104",
-          f"all 2^{8*n} byte strings of length {n}", cap_s=120, mem_gb=2, unwind=9, also=["C01", "C08"])
+          f"all 2^{8*n} byte strings of length {n}", cap_s=120, mem_gb=2, unwind=9, also=["C08"])
 H("c07_q_bool_numeric", "C07", "c07::bool_numeric", "bool from a decimal literal == 'rounds to non-zero', for every "
   "non-NaN f64", "all non-NaN f64", cap_s=120, mem_gb=2, stubset="float", also=["C08"])
 for t, n, tier in [("u8", 3, "q"), ("u8", 4, "q"), ("i8", 4, "q"), ("u16", 5, "q"), ("i16", 5, "q"), ("i32", 5, "q"),
@@ -159,7 +159,7 @@ for t, n, tier in [("u8", 3, "q"), ("u8", 4, "q"), ("i8", 4, "q"), ("u16", 5, "q
     H(f"c07_{tier}_nr1_{t}_n{n}", "C07", f"c07::nr1::<{t}, {n}, _>",
       f"{t} from every NR1 literal of exactly {n} bytes (optional sign, digits) through the REAL lexical-core integer "
       f"parser == reference accumulator value, or -222 when outside the type", f"all NR1 literals of {n} bytes",
-      cap_s=(3600 if tier == "ta" else 600), mem_gb=4, stubset="float", unwind=12, also=["C01"])
+      cap_s=(3600 if tier == "ta" else 600), mem_gb=4, stubset="float", unwind=12)
 
 # ---------------------------------------------------------------------------- C08 (K-conv)
 for t in ("f32", "f64"):
@@ -170,14 +170,14 @@ for t in ("f32", "f64"):
 for n in (1, 2, 3, 4, 5, 6, 7, 8, 9):
     H(f"c08_q_float_keywords_{n}", "C08", f"c08::float_keywords::<{n}, _>", f"f32/f64 from character data of {n} bytes: "
       f"INF|INFINITY, NINF|NINFINITY, NAN, MAX|MAXIMUM, MIN|MINIMUM in any case -> the special value, anything else -104",
-      f"all 2^{8*n} byte strings of length {n}", cap_s=300, mem_gb=3, unwind=12, also=["C01"])
+      f"all 2^{8*n} byte strings of length {n}", cap_s=300, mem_gb=3, unwind=12)
 for n in (1, 2, 3, 4):
     H(f"c08_q_bool_chars_{n}", "C08", f"c08::bool_chars::<{n}, _>", f"bool from character data of {n} bytes: ON / OFF in "
-      f"any case, everything else -224", f"all byte strings of length {n}", cap_s=200, mem_gb=2, unwind=n + 3, also=["C01"])
+      f"any case, everything else -224", f"all byte strings of length {n}", cap_s=200, mem_gb=2, unwind=n + 3)
 H("c08_q_accept_matrix", "C08", "c08::accept_matrix", "every (target, element type) pair of &[u8], &str, Arbitrary, "
   "Character, Expression, NumericList, ChannelList, f32, f64, bool x character / suffixed / non-decimal / string / block / "
   "expression data: Ok (with the payload unchanged) only for the documented kinds, the documented command error otherwise",
-  "3 symbolic payload bytes, any u64 non-decimal value", cap_s=600, mem_gb=4, unwind=8, also=["C01"])
+  "3 symbolic payload bytes, any u64 non-decimal value", cap_s=600, mem_gb=4, unwind=8)
 
 # ---------------------------------------------------------------------------- C09 (K-fmt)
 for t in INTS:
@@ -390,23 +390,23 @@ for n, tier in ((0, "q"), (1, "q"), (2, "q"), (3, "q"), (4, "q"), (5, "q"), (6, 
     H(f"c19_{tier}_chan_step_n{n}", "C19", f"c19::chan_step::<{n}, _>",
       f"one ChannelList iteration step from an arbitrary state (remaining {n} symbolic bytes, first-entry flag) == "
       f"reference SCPI-99 8.3.2 step: entry kind, dimension counts, path text, cursor; listed corruptions give an error", f"remaining expression exactly {n} bytes, every byte value",
-      cap_s=(900 if tier == "q" else 3600), mem_gb=5, unwind=max(n + 3, 8), also=["C01", "C14"], sample=(n == 3))
+      cap_s=(900 if tier == "q" else 3600), mem_gb=5, unwind=max(n + 3, 8), also=["C14"], sample=(n == 3))
     H(f"c19_{tier}_num_step_n{n}", "C19", f"c19::num_step::<{n}, _>",
       f"one NumericList iteration step from an arbitrary state (remaining {n} symbolic bytes, first-entry flag) == "
       f"reference SCPI-99 8.3.3 step: entry kind, exact number texts, cursor; listed corruptions give an error",
       f"remaining expression exactly {n} bytes, every byte value", cap_s=(900 if tier == "q" else 3600), mem_gb=5,
-      unwind=max(n + 3, 8), also=["C01", "C14"])
+      unwind=max(n + 3, 8), also=["C14"])
 for n, tier in ((1, "q"), (2, "q"), (3, "q"), (4, "q"), (5, "q"), (6, "t"), (7, "t")):
     H(f"c19_{tier}_spec_iter_n{n}", "C19", f"c19::spec_iter::<{n}, _>",
       f"a channel spec whose text is ANY {n}-byte run of digits, signs and '!': iterating it never panics (C01); when the "
       f"text is well formed the values are its numbers in order, then None; dimension count == text",
       f"spec text exactly {n} bytes over [0-9+-!]", cap_s=(900 if tier == "q" else 3600), mem_gb=5, unwind=n + 4,
-      also=["C01"], sample=(n == 3))
+      sample=(n == 3))
 for n, dim, tier in ((1, 1, "q"), (2, 1, "q"), (3, 2, "q"), (4, 2, "q"), (5, 3, "q"), (5, 2, "t"), (6, 3, "t")):
     H(f"c19_{tier}_spec_convert_n{n}_d{dim}", "C19", f"c19::spec_convert::<{n}, {dim}, _>",
       f"a well-formed channel spec of {n} bytes converted to a {dim}-tuple of isize: every element is the corresponding "
       f"number of the text; other dimensions are refused", f"well-formed spec text of exactly {n} bytes",
-      cap_s=(900 if tier == "q" else 3600), mem_gb=5, unwind=n + 4, also=["C01"])
+      cap_s=(900 if tier == "q" else 3600), mem_gb=5, unwind=n + 4)
 H("c19_q_from_token_n4", "C19", "c19::from_token::<4, _>", "ChannelList / NumericList from an expression token: @ prefix, "
   "start state; other element types -104", "4 symbolic bytes", cap_s=300, mem_gb=3, unwind=8, also=["C08"])
 
@@ -430,15 +430,34 @@ for e, d in ENUMS.items():
 
 
 # ---------------------------------------------------------------------------- RL-tok (thorough tier; one at a time)
-for L, cap, kind, capS in ((1, 8, "t", 3600), (2, 8, "t", 5400), (3, 8, "t", 7200), (3, 1, "ta", 7200), (4, 8, "ta", 10800)):
-    H(f"c05_{kind}_rl_flat_l{L}_cap{cap}", "C05", f"rl::flat::<{L}, {cap}, _>",
+for L, cap, pull, opt, kind, capS in ((1, 8, 0, "false", "t", 3600), (2, 8, 1, "false", "t", 5400), (3, 8, 0, "false", "t", 7200),
+                                      (3, 8, 1, "false", "t", 7200), (3, 8, 1, "true", "ta", 7200), (3, 8, 2, "false", "ta", 7200),
+                                      (3, 1, 0, "false", "ta", 7200), (4, 8, 1, "false", "ta", 10800), (5, 8, 0, "false", "ta", 10800)):
+    H(f"c05_{kind}_rl_flat_l{L}_cap{cap}_p{pull}{'o' if opt == 'true' else 'r'}", "C05", f"rl::flat::<{L}, {cap}, {pull}, {opt}, _>",
       f"the real Node::run at token level: every lexable script of exactly {L} tokens (: ? ; separator , A *C unknown "
-      f"number chardata lexer-error) on the flat tree {{A, *C}} with logging handlers (symbolic failing call, symbolic number "
-      f"of required/optional parameters pulled), response buffer ArrayVec<u8,{cap}>: hook exactly once with the returned "
-      f"error / never on success, no handler after the failing one; for well-formed units: designated handler and form, "
-      f"-113, -109, -108, offered parameters, response framing incl. the final NL",
+      f"number chardata lexer-error) on the flat tree {{A, *C}} with logging handlers (symbolic failing call; every handler "
+      f"pulls {pull} {'optional' if opt == 'true' else 'required'} parameter(s)), response buffer ArrayVec<u8,{cap}>: hook "
+      f"exactly once with the returned error / never on success, no handler after the failing one; for well-formed units: "
+      f"designated handler and form, -113, -109, -108, offered parameters, response framing incl. the final NL",
       f"all lexable token scripts of length {L}; flat tree; capacity {cap}", cap_s=capS, mem_gb=(45 if L >= 3 else 30),
       family="p_rl", stubset="tok", unwind=L + 2, also=["C01", "C02", "C06", "C10", "C11", "C13"])
+
+# ---------------------------------------------------------------------------- C01: a representative subset re-run under its id
+C01_SET = set(
+    [f"c04_q_lex_m0_c0_n{n}" for n in range(0, 5)] + [f"c04_q_lex_m1_c0_n{n}" for n in range(0, 3)]
+    + [f"c04_q_lex_m2_c0_n{n}" for n in (1, 2, 3)] + [f"c04_q_lex_m3_c0_n{n}" for n in (1, 2)]
+    + ["c04_q_lex_m1_c10_n8", "c04_q_lex_m1_c12_n6", "c04_q_lex_m1_c14_n6", "c04_q_lex_m1_c5_n6", "c04_q_lex_m1_c24_n8",
+       "c04_q_lex_m1_c9_n6", "c04_q_lex_m1_c8_n5", "c04_q_lex_m1_c1_n14", "c04_q_lex_m0_c1_n14",
+       "c04_t_lex_m0_c0_n5", "c04_t_lex_m0_c0_n6", "c04_t_lex_m1_c0_n3", "c04_t_lex_m1_c0_n4",
+       "c07_q_kernel_u8", "c07_q_kernel_i64", "c07_q_kernel_u64", "c07_q_kernel_isize", "c07_q_nr1_u8_n3", "c07_q_other_u8",
+       "c08_q_accept_matrix", "c06_q_params_l2", "c06_q_params_l3",
+       "c19_q_chan_step_n3", "c19_q_chan_step_n6", "c19_q_num_step_n3", "c19_q_num_step_n6", "c19_t_chan_step_n8",
+       "c19_t_num_step_n8"]
+    + [f"c19_q_spec_iter_n{n}" for n in range(1, 6)] + ["c19_t_spec_iter_n6", "c19_t_spec_iter_n7"])
+for _h in ALL:
+    if _h["name"] in C01_SET and "C01" not in _h["also"]:
+        _h["also"].append("C01")
+assert C01_SET <= {h["name"] for h in ALL}, C01_SET - {h["name"] for h in ALL}
 
 PROPS = {
     "C07": {
@@ -739,6 +758,30 @@ PROPS["C06"] = {
                   "run harnesses (thorough).",
     "level_note": "Trusted: Kani/CBMC/CaDiCaL; the token-script stub of <Tokenizer as Iterator>::next and the `lexable` "
                   "automaton (checks/rl.rs).",
+}
+
+PROPS["C01"] = {
+    "bounds": {"quick": "the lexer from every lexer state on every remaining input of <= 4 (header) / <= 2 (data) bytes and "
+                        "on class-representative inputs up to 14 bytes; every integer conversion kernel over all floats "
+                        "(the to_int_unchecked site), NR1, other element kinds; the (target, element type) accept matrix "
+                        "(all parser_unreachable! sites); Parameters over every lexable 2-3 token stream; channel-list and "
+                        "numeric-list steps on <= 6 bytes, channel-spec iteration on every spec text of <= 5 bytes",
+               "thorough": "lexer up to 6 / 4 bytes fully symbolic; list steps up to 8 bytes; spec texts up to 7 bytes; the "
+                           "dispatcher at token level (RL-tok) with Kani's panic / overflow / bounds checks on"},
+    "outside": "byte-level whole-message runs through Node::run are NOT encodable within reach (DESIGN.md section 3: the "
+               "`sub: &[Node]` slice read out of a Node::Branch is a non-constant term under Kani's enum encoding; 2-token "
+               "concrete messages do not finish in 25 min): the dispatcher is covered at token level only, on a flat tree, "
+               "in the thorough tier; inputs longer than the bounds; the release-profile behaviour is covered by the native "
+               "replay of counterexamples only (Kani analyses the dev profile: overflow checks and debug assertions on, so "
+               "every release-only wrap is a dev-profile panic and is reported)",
+    "assumptions": ["termination: every lexer / iterator step is shown to consume at least one byte or to end the run "
+                    "(progress measure) and all unwinding assertions pass, so runs over a finite input terminate"],
+    "level_text": "Bounded model checking with Kani's built-in checks (arithmetic overflow, slice/array bounds, unwrap on "
+                  "None, unreachable!/panic!, pointer validity, float-to-int range) proved unreachable in the real lexer, "
+                  "conversions, Parameters and list iterators over symbolic inputs, plus an explicit progress measure; the "
+                  "same harnesses as C04/C06/C07/C08/C19 (a representative subset is re-run under this id).",
+    "level_note": "Trusted: Kani/CBMC/CaDiCaL; the harnesses' bounds; float parsing stubbed by contract so that the integer "
+                  "fallback is entered with every possible float.",
 }
 
 # properties whose check is still being built (kept current as the work proceeds)
